@@ -107,6 +107,11 @@ def build_scores(s, which):
         return np.asarray(vals, dtype=float)
     if c == "list":
         return list(vals)
+    if c == "series":  # a pandas column whose index labels are not the positions
+        import pandas as pd
+
+        dt = int if s["mode"] == "int" else float
+        return pd.Series(np.asarray(vals, dtype=dt), index=list(range(len(vals)))[::-1])
     if c == "f128":  # extended precision floats (80-bit on x86); the values are float64 images
         return np.asarray(vals, dtype=np.longdouble)
     if s["mode"] == "int":
